@@ -15,7 +15,7 @@ PROPERTY = 'C11'
 LEVEL = 'model_checking'
 CHUNK = {'quick': 60, 'thorough': 150}
 RULE = ('events: cd {new sub-directory, .., -rel-tmp, -rel-act}; env X = v | "${X}b" | "${Y}" | "${nope}c", env unset X | Y, each with no phase spec, -of act, '
-        '-of !act; timeout = 3 | 7 | none; env Y = -stdout-from PROGRAM with each phase spec (the program must run once per changed set, in the environment of that set); advance to the next phase (setup -> [act] -> before-assert -> assert -> cleanup). BFS over histories to depth 4 '
+        '-of !act; timeout = 3 | 0 (the smallest legal value: it is a limit, not the absence of one) | none; env Y = -stdout-from PROGRAM with each phase spec (the program must run once per changed set, in the environment of that set); advance to the next phase (setup -> [act] -> before-assert -> assert -> cleanup). BFS over histories to depth 4 '
         '(thorough 6) with deduplication on the reference state; every transition = one real execution with a probe after every event; non-trivial = the '
         'reference state after the history differs from the initial one')
 ASSUMPTIONS = [
@@ -29,7 +29,7 @@ SPECS = ('', '-of act ', '-of !act ')
 ENVOPS = [('set', 'X', 'v'), ('set', 'X', '${X}b'), ('set', 'X', '${Y}'), ('set', 'X', '${nope}c'), ('unset', 'X', None), ('unset', 'Y', None)]
 EVENTS = ([('cd', k) for k in ('new', 'up', 'tmp', 'act')] +
           [('env', spec, op) for spec in range(3) for op in range(len(ENVOPS))] +
-          [('timeout', v) for v in (3, 7, None)] + [('next',)] +
+          [('timeout', v) for v in (3, 0, None)] + [('next',)] +
           [('envprog', spec) for spec in range(3)])
 BASE_ENV = {'Y': 'y0'}
 
